@@ -24,6 +24,7 @@
 -/
 import Rsa.Core.Num
 import Rsa.Core.Tri
+import Rsa.Gen.C02
 
 namespace Rsa.CrossVal
 
@@ -36,7 +37,8 @@ structure Obs (L F α : Type) where
 /-! ### small generic pieces -/
 
 section num
-variable {α : Type} [Add α] [Sub α] [Mul α] [Div α] [Zero α] [One α] [NatCast α]
+variable {α : Type} [Add α] [Sub α] [Mul α] [Div α] [Neg α] [Zero α] [One α] [NatCast α]
+  [LT α] [DecidableLT α] [LE α] [DecidableLE α] [Max α] [Min α]
 
 /-- `Σ_{k<P} f k` -/
 def sumR (P : Nat) (f : Nat → α) : α := ((List.range P).map f).sum
@@ -51,7 +53,7 @@ def centre (P : Nat) (x : Nat → α) : Nat → α :=
 
 /-- prior regularisation of a rate pattern: `(m + λ₀·w) / (1 + w)` -/
 def reg (lam0 w : α) (x : Nat → α) : Nat → α :=
-  fun k => (x k + lam0 * w) / (1 + w)
+  fun k => Rsa.Gen.C02.regTrain (x k) lam0 w   -- generated from calc_rdm_poisson_cv
 
 /-- identity precision (`np.eye`) -/
 def eye : Nat → Nat → α := fun k l => if k = l then 1 else 0
@@ -73,6 +75,10 @@ def vsubF (u v : Nat → α) : Nat → α := fun k => u k - v k
 /-- a matrix given as data (list of rows) viewed as a function of two indices -/
 def matFn (m : List (List α)) : Nat → Nat → α := fun k l => (m.getD k []).getD l 0
 
+/-- `_check_noise` on one matrix: shape `P × P` (the code's `assert`) -/
+def noiseShapeOk (P : Nat) (m : List (List α)) : Bool :=
+  m.length = P && m.all (fun r => r.length = P)
+
 /-- `(A + B) / 2` entrywise, on matrices given as data -/
 def matAvg (A B : List (List α)) : List (List α) :=
   List.zipWith (List.zipWith (fun a b => (a + b) / ((2 : Nat) : α))) A B
@@ -80,14 +86,15 @@ def matAvg (A B : List (List α)) : List (List α) :=
 /-- `k_aa + k_bb − k_ab − k_ba` written on the four patterns involved:
     `κ` applied to (left pattern of a, right pattern of a) etc. -/
 def kdiff (κ : (Nat → α) → (Nat → α) → α) (ua ub va vb : Nat → α) : α :=
-  κ ub vb + κ ua va - κ ua vb - κ ub va
+  -- generated from `_calc_rdm_crossnobis_single`: k_bb + k_aa − k_ab − k_ba
+  Rsa.Gen.C02.crossEntry (κ ub vb) (κ ua va) (κ ua vb) (κ ub va)
 
 /-- `np.einsum('ij->j', rdms) / rdms.shape[0]`: column-wise mean of a list of vectors -/
 def colMean (rows : List (List α)) : List α :=
   match rows with
   | [] => []
   | r :: rs => (rs.foldl (fun acc v => List.zipWith (· + ·) acc v) r).map
-      (fun s => s / ((rows.length : Nat) : α))
+      (fun s => Rsa.Gen.C02.foldAverage s ((rows.length : Nat) : α))   -- generated leaf
 
 end num
 
@@ -128,7 +135,8 @@ end labels
 section algo
 variable {L F α : Type} [DecidableEq L] [LT L] [DecidableLT L]
   [DecidableEq F] [LT F] [DecidableLT F]
-  [Add α] [Sub α] [Mul α] [Div α] [Zero α] [One α] [NatCast α]
+  [Add α] [Sub α] [Mul α] [Div α] [Neg α] [Zero α] [One α] [NatCast α]
+  [LT α] [DecidableLT α] [LE α] [DecidableLE α] [Max α] [Min α]
 
 /-- `Dataset.sort_by(descriptor)`: stable sort of the rows by condition label -/
 def sortByCond (D : List (Obs L F α)) : List (Obs L F α) :=
@@ -219,7 +227,8 @@ end algo
 
 section spec
 variable {L F α : Type} [DecidableEq L] [DecidableEq F]
-  [Add α] [Sub α] [Mul α] [Div α] [Zero α] [One α] [NatCast α]
+  [Add α] [Sub α] [Mul α] [Div α] [Neg α] [Zero α] [One α] [NatCast α]
+  [LT α] [DecidableLT α] [LE α] [DecidableLE α] [Max α] [Min α]
 
 /-- patterns observed for condition `c` in fold `f` -/
 def cell (D : List (Obs L F α)) (c : L) (f : F) : List (Nat → α) :=
